@@ -102,7 +102,7 @@ NoBrace(c) == \A i \in 1..Len(c) : c[i] # LB
 RECURSIVE StrBodyOK(_, _, _)
 StrBodyOK(c, i, q) ==
   IF i > Len(c) THEN TRUE
-  ELSE IF c[i] = BS THEN (i < Len(c) /\ c[i + 1] # NL /\ StrBodyOK(c, i + 2, q))
+  ELSE IF c[i] = BS THEN (i < Len(c) /\ StrBodyOK(c, i + 2, q))
   ELSE c[i] # q /\ StrBodyOK(c, i + 1, q)
 
 PartOK(p, o) ==
